@@ -165,6 +165,16 @@ CHECKS = {
         'with_hour/minute/second -> None outside their range, Local.with_ymd_and_hms -> Single(midnight of that day) or None (calendar validity uninterpreted), local-time '
         'conversion and formatting of the `modified` column, chrono-english free-form dates and DST gaps are outside the claim.',
    technique=TECH),
+ 'C14': dict(
+   level='model_checking', design_ref='DESIGN.md §5 C14',
+   text='Real MIR, z3: (parse) util::parse_filesize — the whole suffix ladder, the f64 multiplications and the cast — on <number><space?><unit> for every documented unit '
+        '(units and multipliers read from docs/usage.md at run time) in several letter cases with a symbolic number n (also n + 1/2, 1/4, 1/16): the result is number x '
+        'multiplier for all n, decided in integer arithmetic through an exact-double abstraction whose side condition is checked on every operation; (format) '
+        'util::format_filesize from bb0 with the specifier regex captures modelled and humansize::format_size uninterpreted: for every units word (flags c / d / s before or '
+        'after the unit), precision and space the option record handed to humansize (base, fixed unit, decimal places, space) and the short-unit rewrites are what the grammar denotes.',
+   note=TRUST + 'Bounds: n < min(2^20, 2^51 / multiplier) so that every product is an exact double (larger literals, where rounding occurs, are outside); fractions 1/2, 1/4, '
+        '1/16 only. Outside: humansize itself (monotonicity and round-trip of the rendered text), the regex crate (captures modelled), Field::FormattedSize wiring.',
+   technique=TECH),
 }
 REASON_TODO = 'check not built yet in this session (planned: see DESIGN.md §5); not claimed until it exists'
 NA = {}
